@@ -51,7 +51,8 @@ const (
 var parkWatch = 30 * time.Millisecond
 
 type c09Step struct {
-	Op    string `json:"op"` // add | burst | rush | adv | race | drain | addh | advh
+	Op    string `json:"op"`           // add | burst | rush | adv | race | drain | addh | advh | adda | adva
+	On    string `json:"on,omitempty"` // adda: "" = the first NewTimer/Stop call, "reset" = the Reset call
 	N     int    `json:"n,omitempty"`
 	D     int64  `json:"d,omitempty"`
 	D2    int64  `json:"d2,omitempty"`    // advh: the jump inside reset's Stop
@@ -225,10 +226,11 @@ func (r *rig) closeAsync(d time.Duration) bool {
 // script
 
 type stepObs struct {
-	Acts  []string `json:"acts"`
-	Sigs  int      `json:"sigs"`
-	Fired bool     `json:"fired,omitempty"` // addh/advh: the clock was called and jumped inside the call
-	Stuck bool     `json:"stuck,omitempty"`
+	Acts   []string `json:"acts"`
+	Sigs   int      `json:"sigs"`
+	Fired  bool     `json:"fired,omitempty"`  // addh/advh/adda/adva: the clock was called and the hook ran inside the call
+	Before int      `json:"before,omitempty"` // adda/adva: signals of this step already seen when the nested Add was issued
+	Stuck  bool     `json:"stuck,omitempty"`
 }
 
 // acts turns a piece of the clock's log into the run loop's actions.
@@ -260,8 +262,12 @@ func acts(log []logEntry) []string {
 	return out
 }
 
-func stepCoq(s c09Step, fired bool) string {
+func stepCoq(s c09Step, fired bool, before int) string {
 	switch s.Op {
+	case "adda":
+		return fmt.Sprintf("KAddA %s %s %s", hx.CoqBool(s.On == "reset"), hx.CoqBool(fired), hx.CoqZ(int64(before)))
+	case "adva":
+		return fmt.Sprintf("KAdvA %s %s %s", hx.CoqZ(s.D), hx.CoqBool(fired), hx.CoqZ(int64(before)))
 	case "addh":
 		return fmt.Sprintf("KAddH %s %s", hx.CoqZ(s.D), hx.CoqBool(fired))
 	case "advh":
@@ -293,7 +299,7 @@ func runScript(ctx *core.Ctx, in c09Input) {
 		panic("c09: bad configuration")
 	}
 	for _, s := range in.Steps {
-		stepCoq(s, false)
+		stepCoq(s, false, 0)
 		if s.D < 0 || s.D2 < 0 {
 			panic("c09: negative advance")
 		}
@@ -326,6 +332,69 @@ func runScript(ctx *core.Ctx, in c09Input) {
 			adds++
 			ok = ok && pollUntil(settleDeadline, func() bool { t, p, _ := r.vc.snapshot(); return t >= tops+1 && !p })
 			obs[i].Fired = r.vc.disarmHook()
+		case "adda", "adva":
+			// an Add issued on another goroutine from INSIDE a clock call of the run loop: of
+			// handleInputCh for this step's own Add (adda), or of handleTimerFired's reset (adva).
+			// The run loop waits inside the call until that Add has had every chance to get as
+			// far as it can (it cannot finish: the run loop holds the limiter's lock).
+			nested := make(chan struct{})
+			before := 0
+			fn := func() {
+				if !in.Slow {
+					// signals this step has produced so far: seen BEFORE the nested Add exists
+					goroutinesAtMost(alive, 5*time.Millisecond)
+					before = len(r.ch) - sigSeen
+				}
+				started := make(chan struct{})
+				go func() {
+					defer close(nested)
+					close(started)
+					r.rl.Add()
+				}()
+				<-started
+				for j := 0; j < 50; j++ {
+					runtime.Gosched()
+				}
+				time.Sleep(200 * time.Microsecond)
+			}
+			on := hkNew | hkStop
+			if s.On == "reset" {
+				on = hkReset
+			}
+			r.vc.armHookFn(0, on, fn)
+			want := 0
+			if s.Op == "adda" {
+				ok = r.add()
+				adds++
+				want = 1
+			} else {
+				r.vc.Advance(s.D)
+			}
+			// settled: the expiry (if any) handled, then - if the hook ran - the nested Add
+			// returned and its token handled too
+			ok = ok && pollUntil(settleDeadline, func() bool {
+				t, p, _ := r.vc.snapshot()
+				if p || t < tops+want {
+					return false
+				}
+				r.vc.mu.Lock()
+				armed, fired := r.vc.hookArmed, r.vc.hookFired
+				r.vc.mu.Unlock()
+				if armed && !fired {
+					return true // no clock call of the kind was made
+				}
+				select {
+				case <-nested:
+				default:
+					return false
+				}
+				return t >= tops+want+1
+			})
+			obs[i].Fired = r.vc.disarmHook()
+			if obs[i].Fired {
+				adds++
+				obs[i].Before = before
+			}
 		case "advh":
 			// if the window's timer expires, the clock jumps again inside reset's Stop
 			r.vc.armHook(s.D2)
@@ -451,7 +520,7 @@ func runScript(ctx *core.Ctx, in c09Input) {
 	coqSteps := make([]string, len(in.Steps))
 	shape := make([]string, len(in.Steps))
 	for i, s := range in.Steps {
-		coqSteps[i] = fmt.Sprintf("(%s, (%s, %s))", stepCoq(s, obs[i].Fired), hx.CoqList(obs[i].Acts), hx.CoqZ(int64(obs[i].Sigs)))
+		coqSteps[i] = fmt.Sprintf("(%s, (%s, %s))", stepCoq(s, obs[i].Fired, obs[i].Before), hx.CoqList(obs[i].Acts), hx.CoqZ(int64(obs[i].Sigs)))
 		shape[i] = fmt.Sprintf("%s%d/%d/%d", s.Op[:2]+s.Op[len(s.Op)-1:], s.N, s.D, s.D2)
 	}
 	finCoq := map[string]string{"close2": "FClose2", "close": "FClose", "cancel": "(FCancel 0%Z)", "canceladds": "(FCancel " + hx.CoqZ(int64(in.FinN)) + ")"}[in.Fin]
@@ -845,6 +914,18 @@ func genScript(r *hx.Rand, thorough bool) c09Input {
 	}
 	for i := 0; i < n; i++ {
 		switch x := r.Intn(24); {
+		case x >= 22 && r.Chance(1, 2):
+			// an Add from inside a clock call of the expiry's / of another Add's handler
+			if r.Bool() {
+				d := windowAdvance(r, a.left())
+				in.Steps = append(in.Steps, c09Step{Op: "adva", D: d})
+				a.adv(d)
+				a.add() // if the window expired
+			} else {
+				in.Steps = append(in.Steps, c09Step{Op: "adda", On: []string{"", "reset"}[r.Intn(2)]})
+				a.add()
+				a.add()
+			}
 		case x >= 22:
 			// the window's timer expires (or not) inside reset's / handleInputCh's clock call
 			d := windowAdvance(r, a.left())
@@ -983,6 +1064,35 @@ func c09Gen(ctx *core.Ctx) {
 					}
 					in = base
 					in.Steps = []c09Step{{Op: "rush", N: cp + 2}, {Op: "adv", D: g[0] / 2}, {Op: "rush", N: cp}}
+					finish(r, &in, true)
+					c09Run(ctx, in)
+				}
+				// (h) an Add issued from INSIDE each clock call of each handler (it queues for the
+				// lock the handler holds): inside reset's Stop when a window with nothing / with
+				// something pending expires - the nested Add is then the first after an idle
+				// period -, inside NewTimer (idle), inside Stop and inside Reset (window open);
+				// the nested Add is the last one before the flush
+				for variant := 0; variant < 5; variant++ {
+					if !ctx.Thorough && cp > 1 && !r.Chance(1, 2) {
+						continue
+					}
+					in = base
+					in.Legacy = r.Bool()
+					switch variant {
+					case 0: // expiry with nothing pending, exactly at the window's end
+						in.Steps = []c09Step{{Op: "add"}, {Op: "adva", D: g[0]}}
+					case 1: // expiry with an Add pending, one past the end
+						in.Steps = []c09Step{{Op: "add"}, {Op: "adv", D: g[0] / 2}, {Op: "add"}, {Op: "adva", D: min64(2*g[0], g[1]) + 1}}
+					case 2: // inside NewTimer
+						in.Steps = []c09Step{{Op: "adda"}}
+					case 3: // inside Stop of the open window's timer
+						in.Steps = []c09Step{{Op: "add"}, {Op: "adda"}}
+					default: // inside Reset
+						in.Steps = []c09Step{{Op: "add"}, {Op: "adda", On: "reset"}}
+					}
+					if r.Chance(1, 2) {
+						in.Steps = append(in.Steps, c09Step{Op: "adva", D: 0}) // no expiry: no nested Add
+					}
 					finish(r, &in, true)
 					c09Run(ctx, in)
 				}
